@@ -284,3 +284,8 @@ func VerifH_C13_GnetFreshConnection() {
 // wedge the NEXT connection of the listener (scenario of C13_GnetFreshConnection, registered under the malformed-input
 // property as well).
 func VerifH_C01_GnetConnectionsAreIndependent() { VerifH_C13_GnetFreshConnection() }
+
+// VerifH_C13_FramePrefixNeverWraps: "each response is emitted as one contiguous frame whose 2-byte prefix equals its body
+// length" — also for responses at and beyond what two octets can express: the stream packing helper for messages of
+// 65533..65538, ~70 KiB and ~130 KiB (scenario of C09_StreamFraming, registered under the framing property as well).
+func VerifH_C13_FramePrefixNeverWraps() { VerifH_C09_StreamFraming() }
